@@ -152,10 +152,14 @@ func (g *Gen) strLit(s string) Term {
 }
 
 func (g *Gen) globalAddr(o types.Object) Term {
-	n := "glob_" + sanitize(o.Pkg().Path()+"."+o.Name())
+	return g.globalAddrN(o.Pkg().Path(), o.Name(), o.Type())
+}
+
+func (g *Gen) globalAddrN(pkg, name string, t types.Type) Term {
+	n := "glob_" + sanitize(pkg+"."+name)
 	if !g.declared[n] {
 		g.declare(n, SInt)
-		g.emit(fmt.Sprintf("(assert (and (>= %s 1) (< (+ %s %d) W0)))", n, n, cellSize(o.Type())))
+		g.emit(fmt.Sprintf("(assert (and (>= %s 1) (< (+ %s %d) W0)))", n, n, cellSize(t)))
 	}
 	return Term{S: n, Sort: SInt, Lo: big.NewInt(1)}
 }
